@@ -64,7 +64,9 @@ func scnCapBasic(name string, nodeSort string) *world.Scenario {
 func init() {
 	for _, pol := range []string{"fair", "binpacking"} {
 		mc.Register(&mc.ScenarioDef{Scn: scnCapBasic("cap-basic-"+pol, pol), Monitors: []mc.Monitor{monC01()}})
-		mc.Register(&mc.ScenarioDef{Scn: scnCapBasic("acct-basic-"+pol, pol), Monitors: []mc.Monitor{monC03()}})
+		acct := scnCapBasic("acct-basic-"+pol, pol)
+		acct.Alphabet = append(acct.Alphabet, "ASK_RELEASE", "RELEASE_ALL") // an ask with its own release in one update; release without key
+		mc.Register(&mc.ScenarioDef{Scn: acct, Monitors: []mc.Monitor{monC03()}})
 	}
 	registerCheck(&CheckDef{Prop: "C01", Level: "model_checking", Technique: "explicit-state BFS over the real ClusterContext (bounded op sequences, canonical-state dedup)",
 		Quick:          []Run{{Scenario: "cap-basic-fair", Depth: 6, MapModes: []int{1}}, {Scenario: "cap-basic-binpacking", Depth: 6, MapModes: []int{1}}, {Scenario: "gang-cap-Soft", Depth: 6, MapModes: []int{1}}, {Scenario: "reserve-cap", Depth: 6, MapModes: []int{1}}, {Scenario: "gang-cap-drain", Depth: 7, MapModes: []int{1}}, {Scenario: "gang-sparse-cap", Depth: 6, MapModes: []int{1}}},
